@@ -15,6 +15,7 @@ with the facts regenerated from the source (`Generated.C08.headerRet` = what `re
   Decrypt / take-scribble-put) runs to its end, the pool handing out the most recently put buffer;
   then A finishes.  Answer: `a=same|differs b=same|differs access=ok|violated steps=<n>`
   (`same` = the log equals `soloLog`; `access` = was every array touched owned by the toucher).
+* `bsp mincap=<m> ops=g<cap>,r<size>,f<byte>,…` — ByteSlicePool Get/Resize/fill on one acquisition.
 * `reg ops=n0,n1,s,n0,…` — the logger-registry specification run sequentially.
 * `interleave seed=<n> docs=<hex>,<hex>,… [variant=…]` — a pseudo-random schedule with
   pseudo-random pool choices over Decrypt threads; same answer format (`a` = all threads).
@@ -172,6 +173,27 @@ def doReg (l : Kit.Line) : String :=
     " ".intercalate (go [] toks [])
   | none => "bad-request"
 
+/-- `bsp mincap=<m> ops=g<cap>,r<size>,f<byte>,…` — one acquisition from an EMPTY pool: `Get`,
+`Resize`, filling `[0:len)`; answers `len/cap/<hex of the elements>` after every call -/
+def doBsp (l : Kit.Line) : String :=
+  match l.nat? "mincap", l.get? "ops" with
+  | some mc, some ops =>
+    let toks := if ops == "" then [] else ops.splitOn ","
+    let rec go (p : PSlice) (ts : List String) (acc : List String) : List String :=
+      match ts with
+      | [] => acc.reverse
+      | t :: rest =>
+        match (t.drop 1).toString.toNat? with
+        | none => go p rest ("bad" :: acc)
+        | some n =>
+          let p' : PSlice :=
+            if t.startsWith "g" then bspFresh (max n mc)
+            else if t.startsWith "r" then bspResize p n
+            else { p with cells := List.replicate (min p.len p.cells.length) n ++ p.cells.drop p.len }
+          go p' rest (s!"{p'.len}/{p'.cells.length}/{hexOf p'.elems}" :: acc)
+    " ".intercalate (go (bspFresh 0) toks [])
+  | _, _ => "bad-request"
+
 def answer (line : String) : String :=
   let l := Kit.parseLine line
   match l.op with
@@ -179,6 +201,7 @@ def answer (line : String) : String :=
   | "forced" => doForced l
   | "interleave" => doInterleave l
   | "reg" => doReg l
+  | "bsp" => doBsp l
   | "facts" => s!"headerRet={repr Kit.Generated.C08.headerRet}"
   | _ => "bad-request"
 
